@@ -8,6 +8,9 @@ package monitors
 // interleaved request.  The scripted server steps its clock after every exchange and the network
 // delivers a duplicate of the previous response in front of every genuine one.
 //
+// Every exchange lasts longer than the quantum (the server's processing time), so readings of different
+// exchanges differ and only readings within one exchange coincide.
+//
 // Own process (leg): the clock can be registered once per process only.
 //
 // Oracle, per call of the filter (the four timestamps the client combined): the server's offset was
@@ -137,8 +140,11 @@ func c03cHistory(r *ev.Run, rng *rand.Rand, h int, quantum time.Duration) {
 			resp.ReceiveTime = ntp.Time64FromTime(rxt)
 			if prev != nil && dupFirst {
 				_, _ = conn.WriteToUDPAddrPort(prev, src)
-				time.Sleep(3 * time.Millisecond)
 			}
+			// every exchange lasts longer than the clock's quantum, so that the next one starts from a fresh
+			// reading: two *exchanges* that read the same time send indistinguishable requests, which is
+			// outside what C03 states (see DESIGN.md section 10) — equal readings *within* an exchange are the point
+			time.Sleep(quantum + 2*time.Millisecond)
 			resp.TransmitTime = ntp.Time64FromTime(time.Now().UTC().Add(th))
 			var out []byte
 			ntp.EncodePacket(&out, &resp)
